@@ -14,7 +14,7 @@ def apalache(wd, module, inv, timeout=900):
     cmd = ["apalache-mc", "check", "--length=0", "--inv=" + inv, "--out-dir=" + out, module + ".tla"]
     t0 = time.time()
     try:
-        p = subprocess.run(cmd, cwd=wd, capture_output=True, text=True, timeout=timeout)
+        p = subprocess.run(cmd, cwd=wd, capture_output=True, text=True, timeout=timeout, env=dict(os.environ, TMPDIR=wd))  # (the wrapper makes its temp dir under TMPDIR)
     except subprocess.TimeoutExpired:
         raise MachineryError("apalache timed out on %s/%s" % (module, inv))
     o = p.stdout + p.stderr
